@@ -124,6 +124,33 @@ GlvShort(e) ==
             /\ IModPos(IAdd(d[1], IMul(d[2], I(FALSE, Lambda(e)))), r) = BMod(k, r)
             /\ BBits(d[1].mag) <= (bits \div 2) + 2 /\ BBits(d[2].mag) <= (bits \div 2) + 2
 
+(* the rounding constants of the decomposition, v10 ~ v22 * 2^(bits+1) / det and v20 ~ v12 * 2^(bits+1) / det  *)
+(* with |det| = r: each is the floor or the ceiling of its defining quotient (signs are judged by GlvShort)     *)
+GlvRounding(e) ==
+    e.endom = 1 =>
+        LET r == Ord(e)  sh == BBits(Ord(e)) + 1 IN
+        /\ BLe(AbsDiff(BMul(BNorm(e.v10.d), r), BShl(BNorm(e.v22.d), sh)), r)
+        /\ BLe(AbsDiff(BMul(BNorm(e.v20.d), r), BShl(BNorm(e.v12.d), sh)), r)
+
+(* ---- constants of the hash-to-curve maps (derived when the curve is installed) ---- *)
+MapConstants(e) ==
+    LET p == Pm(e)  a == Cv(e).a  b == Cv(e).b  u == BNorm(e.mapu)
+        c0 == BNorm(e.mapc0)  c1 == BNorm(e.mapc1)  c2 == BNorm(e.mapc2)  c3 == BNorm(e.mapc3)  c4 == BNorm(e.mapc4)
+    IN
+    /\ IF e.ctmap = 1 \/ (a # <<>> /\ b # <<>>)
+       THEN \* simplified SWU on the curve or on its isogenous curve: c2, c3 its coefficients, c0 = -c3/c2, u a non-square
+            /\ c2 # <<>> /\ FMul(c0, c2, p) = FNeg(c3, p)
+            /\ u # <<>> /\ FLegendre(u, p) = 0 - 1
+            /\ IF e.ctmap = 1 THEN c2 = BNorm(e.isoa) /\ c3 = BNorm(e.isob) ELSE c2 = a /\ c3 = b
+       ELSE \* Shallue - van de Woestijne: c0 = g(u), c1 = -u/2, c2 = sqrt(-g(u)(3u^2+4a)) with sgn0 = 0, c3 = -4g(u)/(3u^2+4a)
+            LET gu == FAdd(FMul(FAdd(FSqr(u, p), a, p), u, p), b, p)
+                d  == FAdd(FMul(<<3>>, FSqr(u, p), p), FMul(<<4>>, a, p), p)
+            IN  /\ u # <<>> /\ c0 = gu
+                /\ FAdd(FAdd(c1, c1, p), u, p) = <<>>
+                /\ c2 # <<>> /\ FSqr(c2, p) = FNeg(FMul(gu, d, p), p) /\ BBit(c2, 0) = 0
+                /\ FAdd(FMul(c3, d, p), FMul(<<4>>, gu, p), p) = <<>>
+    /\ ((e.super = 0 /\ (a = <<>> \/ b = <<>>)) => FSqr(c4, p) = FNeg(<<3>>, p))
+
 (* ---- pairing-friendly sets (BN family at k = 12) ---- *)
 Par(e) == BnI(e.par)
 PolyBN(x, c4, c3, c2, c1, c0) ==          \* c4 x^4 + c3 x^3 + c2 x^2 + c1 x + c0
@@ -181,6 +208,14 @@ TwistCofactor(e) ==
             hr == I(FALSE, BMul(BNorm(e.h2.d), Ord(e)))
         IN  /\ Sq(f.mag) = f2m
             /\ \E c \in cands : IEq(c, hr)
+(* h2 * r annihilates every point of the twist, not only the subgroup: witnesses built from an x coordinate *)
+TwistCofactorClears(e) ==
+    HasTwist(e) =>
+        /\ Len(e.pts2) >= 1
+        /\ \A j \in 1..Len(e.pts2) :
+              LET Q == XPt(E2(e.pts2[j].x0, e.pts2[j].x1), E2(e.pts2[j].y0, e.pts2[j].y1)) IN
+              /\ XOnCurve(Q, Twist(e))
+              /\ XMulNat(BMul(BNorm(e.h2.d), Ord(e)), Q, Twist(e)) = XInf(Twist(e))
 (* the Frobenius (untwist - Frobenius - twist) acts on G2 as multiplication by p *)
 FrobeniusOnG2(e) ==
     HasTwist(e) =>
@@ -190,7 +225,8 @@ Relations == {"PrimeModulus", "MontConstants", "ResidueConstants", "GeneratorOnC
               "OrderPrime", "OrderAnnihilatesGenerator", "HasseAndCofactor", "CofactorClears", "CurveFlags",
               "SecurityLevel", "GeneratorTable", "BetaCubeRoot", "LambdaRoot", "PsiIsLambda", "GlvBasis",
               "GlvShort", "FamilyPolynomials", "CurveOrderFromTrace", "EmbeddingDegree", "TowerIsField",
-              "TwistCoefficients", "TwistGenerator", "TwistOrder", "TwistCofactor", "FrobeniusOnG2"}
+              "TwistCoefficients", "TwistGenerator", "TwistOrder", "TwistCofactor", "FrobeniusOnG2",
+              "GlvRounding", "MapConstants", "TwistCofactorClears"}
 
 ParamAccept(e) ==
     /\ e.op = "ep" /\ e.id > 0
@@ -220,6 +256,9 @@ ParamAccept(e) ==
          [] e.rel = "TwistOrder" -> TwistOrder(e)
          [] e.rel = "TwistCofactor" -> TwistCofactor(e)
          [] e.rel = "FrobeniusOnG2" -> FrobeniusOnG2(e)
+         [] e.rel = "GlvRounding" -> GlvRounding(e)
+         [] e.rel = "MapConstants" -> MapConstants(e)
+         [] e.rel = "TwistCofactorClears" -> TwistCofactorClears(e)
          [] OTHER -> FALSE
 ParamKnownKey(e) == ""
 =============================================================================
